@@ -69,14 +69,14 @@ def r1(ctx):
         _fallback(ctx, R, f, f"{gen}.x1F_ext.ExtendedMessageDecoder._sub_message_decoder", "self._decoder_map.get", "ExtendedMessageDecoder._UNSUPPORTED_DECODER", inl)
         _unsupported(ctx, R, xm, "UnsupportedExtendedDecoder", {("header.message_length",): 1}, "header.message_id")
         ci = xm.get_class("ExtendedMessageDecoder")
-        v = ci.attrs.get("_UNSUPPORTED_DECODER")
+        v = ci.attrs.get("_UNSUPPORTED_DECODER") or xm.assigns.get("_UNSUPPORTED_DECODER")  # class attribute or module constant
         ctx.check(isinstance(v, ast.Call) and dotted(v.func) == "UnsupportedExtendedDecoder", R, f"{gen}.x1F_ext:_UNSUPPORTED_DECODER", xm, ci.node, "UnsupportedExtendedDecoder()", norm_text(v) if v is not None else "missing")
     c0 = ctx.repo.module("pyairtouch.at5.comms.xC0_ctrl_status")
     f, inl = _fallback_fn(ctx, c0, "ControlStatusDecoder", "_sub_message_decoder")
     _fallback(ctx, R, f, "at5.xC0.ControlStatusDecoder._sub_message_decoder", "self._decoder_map.get", "ControlStatusDecoder._UNSUPPORTED_DECODER", inl)
     _unsupported(ctx, R, c0, "UnsupportedControlStatusDecoder", {("header.non_repeat_length",): 1, ("header.repeat_count", "header.repeat_length"): 1}, "header.sub_message_id")
     ci = c0.get_class("ControlStatusDecoder")
-    v = ci.attrs.get("_UNSUPPORTED_DECODER")
+    v = ci.attrs.get("_UNSUPPORTED_DECODER") or c0.assigns.get("_UNSUPPORTED_DECODER")
     ctx.check(isinstance(v, ast.Call) and dotted(v.func) == "UnsupportedControlStatusDecoder", R, "at5.xC0:_UNSUPPORTED_DECODER", c0, ci.node, "UnsupportedControlStatusDecoder()", norm_text(v) if v is not None else "missing")
     um = cm.get_class("UnsupportedMessage")
     fn = um.methods.get("message_id")
@@ -109,7 +109,7 @@ def _fallback(ctx, R, f: Fn, lab, lookup, fallback, inlined=False):
     for t in f.tests(lambda e: isinstance(e, ast.Name) and e.id == var):
         fb = f.branch(t, "false")
         r = [n for n in rets if g.dominates(fb.id, n.id)]
-        if len(r) >= 1 and all(norm_text(n.ast.value) == fallback for n in r) and g.all_paths_pass(fb.id, [g.exit.id], [n.id for n in r], NONEXC):
+        if len(r) >= 1 and all(norm_text(n.ast.value) in (fallback, fallback.split(".")[-1]) for n in r) and g.all_paths_pass(fb.id, [g.exit.id], [n.id for n in r], NONEXC):
             tb = f.branch(t, "true")
             r2 = [n for n in rets if g.dominates(tb.id, n.id)]
             if r2 and all(norm_text(n.ast.value) == var for n in r2):
@@ -117,14 +117,14 @@ def _fallback(ctx, R, f: Fn, lab, lookup, fallback, inlined=False):
     for t in f.tests(lambda e: isinstance(e, ast.Compare) and isinstance(e.left, ast.Name) and e.left.id == var and isinstance(e.comparators[0], ast.Constant) and e.comparators[0].value is None):
         none_b = f.branch(t, "true" if isinstance(t.ast.ops[0], (ast.Is, ast.Eq)) else "false")
         r = [n for n in rets if g.dominates(none_b.id, n.id)]
-        if r and all(norm_text(n.ast.value) == fallback for n in r):
+        if r and all(norm_text(n.ast.value) in (fallback, fallback.split(".")[-1]) for n in r):
             miss_ok = True
     if inlined and var is not None:
         # the lookup sits in decode(): on a miss the variable is re-assigned the fallback before its .decode() is called
         uses = [n for n, c in f.calls(f"{var}.decode")]
         for t, present in f.presence(var):
             mb = f.branch(t, "false" if present == "true" else "true")
-            re = [n for n, v in f.assigns(var) if v is not None and norm_text(v) == fallback and g.dominates(mb.id, n.id)]
+            re = [n for n, v in f.assigns(var) if v is not None and norm_text(v) in (fallback, fallback.split(".")[-1]) and g.dominates(mb.id, n.id)]
             if re and uses and all(g.all_paths_pass(mb.id, [u.id], [n.id for n in re], NONEXC) for u in uses):
                 miss_ok = True
     ctx.check(miss_ok, R, f"{lab}:miss-returns-fallback", m, f.node, f"a miss returns {fallback}; a hit returns the registered decoder", "; ".join(norm_text(n.ast) for n in rets))
